@@ -120,7 +120,8 @@ COMPONENTS = {
     'stub': ['mpi4py.MPI.COMM_WORLD (bcast/gather/scatter/Barrier/Get_rank/Get_size, ~100 lines, MPI-standard matching and completion rules)',
              'signal.alarm (virtual timer; expiry decided by the fault plan)'],
     'simulated': ['rank scheduling (baton passing, seeded policy)', 'collective completion mode (eager/rendezvous coin)',
-                  'timer expiry points (statement ticks via AST instrumentation; call events inside sympy)'],
+                  'timer expiry points (statement ticks via AST instrumentation; call events inside sympy)',
+                  'file-system operations on the shared scratch tree as pre-emption points; opening a file for writing is two of them (before the open; after the truncation, before any data)'],
 }
 
 
